@@ -33,7 +33,7 @@ CLAIMED['C18'] = dict(
    design_ref="5/C18")
 
 CLAIMED['C01'] = dict(
-   text="Kernel-checked END TO END for ALL strings, ALL tables with '?' and both values of attribute (props/C01.v: C01_valid_smiles): whenever fewer than 100 pairs of atoms are joined by ring bonds, the string the decoder model returns is accepted by the independent SMILES reader of spec/Reader.v and the molecule read from it is a simple graph in Kekule form in which every atom stays within the capacity the table gives its (element, charge) minus explicit H. Route (all by induction over unbounded inputs): valence / symmetry / forest invariants of the derivation and ring pass (DecoderInv, DecoderSum, DecoderTree); the two shapes of decoded atoms and read-back of their printed tokens incl. decimal print/parse (WriterAtoms, DecFacts); tokenisation of the printed string (WriterLex, WriterToks); simulation of the reader along the writer's traversal with ring labels paired through the ring log (WriterSim); validity of the molecule read (WriterFinal). The bound is sharp: at 100 ring bonds the writer prints %100 and the statement is REFUTED on the faithful model (known finding). Side condition symbols_short: no symbol longer than the interpreter's int() digit limit. State functions are regenerated from grammar_rules.py on every run; decoder model tied by exact-output correspondence (bounded-exhaustive + sampled, many tables, table histories); every implementation output is also judged by the extracted reader.",
+   text="Kernel-checked END TO END for ALL strings, ALL tables with '?' and both values of attribute (props/C01.v: C01_valid_smiles, C01_valid_smiles_from_string): whenever fewer than 100 pairs of atoms are joined by ring bonds - in particular whenever the input has fewer than 100 ring symbols (proofs/RingCount.v: ring pairs <= ring symbols, so the hypotheses are on the input string alone) - the string the decoder model returns is accepted by the independent SMILES reader of spec/Reader.v and the molecule read from it is a simple graph in Kekule form in which every atom stays within the capacity the table gives its (element, charge) minus explicit H. Route (all by induction over unbounded inputs): valence / symmetry / forest invariants of the derivation and ring pass (DecoderInv, DecoderSum, DecoderTree); the two shapes of decoded atoms and read-back of their printed tokens incl. decimal print/parse (WriterAtoms, DecFacts); tokenisation of the printed string (WriterLex, WriterToks); simulation of the reader along the writer's traversal with ring labels paired through the ring log (WriterSim); validity of the molecule read (WriterFinal). The bound is sharp (99 five-rings valid, 100 not): at 100 ring bonds the writer prints %100 and the statement is REFUTED on the faithful model (known finding). Side condition symbols_short: no symbol longer than the interpreter's int() digit limit. State functions are regenerated from grammar_rules.py on every run; decoder model tied by exact-output correspondence (bounded-exhaustive + sampled, many tables, table histories); every implementation output is also judged by the extracted reader.",
    technique="Coq proof, end to end (graph invariants + writer/reader simulation: valid_smiles_under T (decoder s) = true below 100 ring pairs) + refutation witness at the bound + exact correspondence of the decoder model + extracted independent-reader oracle",
    design_ref="5/C01")
 CLAIMED['C02'] = dict(
